@@ -94,7 +94,7 @@ def rxSize : Rx → Nat
   | .eps => 1 | .lit _ => 1 | .cls _ _ => 1 | .wordb => 1
   | .seq a b => rxSize a + rxSize b + 1 | .alt a b => rxSize a + rxSize b + 1
   | .opt a => rxSize a + 1 | .star a => rxSize a + 2 | .plus a => rxSize a + 3
-  | .grp _ a => rxSize a + 1 | .nla a => rxSize a + 1 | .nlb a => rxSize a + 1
+  | .grp _ a => rxSize a + 1 | .nla a => rxSize a + 1 | .nlb a => 2 * rxSize a + 1   -- the look-behind body runs on one code point
 
 /-- fuel used by the model for one match attempt on a text of `n` remaining code points -/
 def fuelFor (r : Rx) (n : Nat) : Nat := (rxSize r + 1) * (n + 2)
